@@ -115,7 +115,13 @@ func (o *c11Origin) obs(id string) []c11Hit {
 // otherSetter applies one of the client's OTHER configuration methods - none of them is about redirects,
 // each must leave the redirect policy the client holds alone - and says which
 func otherSetter(rng *hk.Rand, c *req.Client, o *c11Origin) string {
-	switch rng.Intn(12) {
+	switch rng.Intn(15) {
+	case 12, 13, 14:
+		// a client-level round-trip middleware: the chain it builds ends in THIS client's exchange
+		c.WrapRoundTripFunc(func(rt req.RoundTripper) req.RoundTripFunc {
+			return func(rq *req.Request) (*req.Response, error) { return rt.RoundTrip(rq) }
+		})
+		return "WrapRoundTripFunc(pass-through)"
 	case 0, 1, 2:
 		d := time.Duration(20+rng.Intn(40)) * time.Second
 		c.SetTimeout(d)
@@ -304,7 +310,7 @@ func genSpec(rng *hk.Rand, pool []authority) polSpec {
 	case 5:
 		return specAlwaysCopy(rng)
 	case 6:
-		if rng.Chance(30) {
+		if rng.Chance(50) {
 			return specNo()
 		}
 		return specNil()
@@ -444,12 +450,25 @@ func genPlan(rng *hk.Rand, init authority, hops int, others []authority, friendl
 		p.method, p.body = "POST", "payload-of-the-first-request"
 	}
 	cur := init
+	curPath := "/start"
 	for j := 0; j < hops; j++ {
 		var t authority
 		rel := rng.Chance(15)
+		// a "directory redirect": the previous path + "/" on the same host name, usually another port,
+		// 307/308 so that method and body travel too.  It is a redirect like any other.
+		dir := !rel && rng.Chance(12)
 		switch {
 		case rel:
 			t = cur
+		case dir:
+			t = cur
+			switch rng.Intn(3) {
+			case 0:
+				pt := hk.Pick(rng, []string{"81", "8443", "8080"})
+				t.Port = &pt
+			case 1:
+				t.Port = nil
+			}
 		case friendly && rng.Chance(65):
 			// the same host in another spelling: case, port
 			t = cur
@@ -480,12 +499,22 @@ func genPlan(rng *hk.Rand, init authority, hops int, others []authority, friendl
 		p.targetAuth = append(p.targetAuth, t)
 		p.targets = append(p.targets, t.render())
 		p.rel = append(p.rel, rel)
-		if rel {
-			p.loc = append(p.loc, fmt.Sprintf("/next%d", j))
-		} else {
-			p.loc = append(p.loc, fmt.Sprintf("http://%s/next%d", t.render(), j))
+		switch {
+		case rel:
+			curPath = fmt.Sprintf("/next%d", j)
+			p.loc = append(p.loc, curPath)
+		case dir:
+			curPath += "/"
+			p.loc = append(p.loc, "http://"+t.render()+curPath)
+		default:
+			curPath = fmt.Sprintf("/next%d", j)
+			p.loc = append(p.loc, "http://"+t.render()+curPath)
 		}
-		p.status = append(p.status, hk.Pick(rng, []int{302, 302, 301, 303, 307, 308}))
+		if dir {
+			p.status = append(p.status, hk.Pick(rng, []int{307, 308, 301}))
+		} else {
+			p.status = append(p.status, hk.Pick(rng, []int{302, 302, 301, 303, 307, 308}))
+		}
 		cur = t
 	}
 	return p
@@ -833,6 +862,13 @@ func c11Clients(r *hk.Run, rng *hk.Rand, o *c11Origin, n int) {
 			ops, opsDesc = append(ops, "OOther "+hk.CoqNat(k)), append(opsDesc, fmt.Sprintf("c%d.%s", k, what))
 			r.Count("client.op.other")
 		}
+		opWrap := func(k int) {
+			world[k].c.WrapRoundTripFunc(func(rt req.RoundTripper) req.RoundTripFunc {
+				return func(rq *req.Request) (*req.Response, error) { return rt.RoundTrip(rq) }
+			})
+			ops, opsDesc = append(ops, "OOther "+hk.CoqNat(k)), append(opsDesc, fmt.Sprintf("c%d.WrapRoundTripFunc(pass-through)", k))
+			r.Count("client.op.wrap")
+		}
 		opClone := func(k int) {
 			world = append(world, cli{world[k].c.Clone(), world[k].specs})
 			ops, opsDesc = append(ops, "OClone "+hk.CoqNat(k)), append(opsDesc, fmt.Sprintf("c%d := c%d.Clone()", len(world)-1, k))
@@ -867,6 +903,9 @@ func c11Clients(r *hk.Run, rng *hk.Rand, o *c11Origin, n int) {
 			opSet(0, first)
 			if rng.Chance(50) {
 				opOther(0)
+			}
+			if rng.Chance(35) {
+				opWrap(0)
 			}
 			opClone(0)
 			if rng.Chance(40) {
